@@ -99,11 +99,17 @@ class CreateTable(ASTNode):
                 if col.length is not None:
                     type = f'{type}({col.length})'
                 col_str = f'{col.name} {type}'
+                if col.default is not None:
+                    col_str += f' DEFAULT {col.default}'
                 if col.nullable is True:
                     col_str += ' NULL'
                 elif col.nullable is False:
                     col_str += ' NOT NULL'
                 columns.append(col_str)
+
+            primary_keys = [str(col.name) for col in self.columns if col.is_primary_key]
+            if len(primary_keys) > 0:
+                columns.append('PRIMARY KEY ({})'.format(', '.join(primary_keys)))
 
             columns_str = '({})'.format(', '.join(columns))
 
